@@ -7,6 +7,8 @@ mod alloc_model;
 mod findings;
 mod search;
 mod serde_find;
+mod unknown_find;
+mod varint_find;
 
 fn main() {
     let args: Vec<String> = std::env::args().collect();
